@@ -739,10 +739,10 @@ func (c *evalCtx) evalCall(x *ECall) TVal {
 		}
 		return c.withState(c.old).eval(x.Args[0])
 	case "atlock":
-		if c.ex.lockSnap == nil {
-			c.errf("atlock() used in a function that takes no lock")
+		if c.st.lockSnap == nil {
+			c.errf("atlock() used where no Lock() has happened on the path")
 		}
-		return c.withState(c.ex.lockSnap).eval(x.Args[0])
+		return c.withState(c.st.lockSnap).eval(x.Args[0])
 	case "strbytes":
 		lit, ok := x.Args[0].(*EStr)
 		if !ok {
